@@ -659,8 +659,10 @@ fn dash_impl<T: Iterator<Item = PathEl>>(
     let mut dash_ix = 0;
     let mut dash_remaining = dashes[dash_ix] - dash_offset;
     let mut is_active = true;
-    // Find place in dashes array for initial offset.
-    while dash_remaining < 0.0 {
+    // Find place in dashes array for initial offset. An "off" interval that the
+    // offset exhausts exactly is skipped, so that a sub-path which begins exactly
+    // where a dash begins has that dash as its first one (and joins it on close).
+    while dash_remaining < 0.0 || (dash_remaining == 0.0 && !is_active) {
         dash_ix = (dash_ix + 1) % dashes.len();
         dash_remaining += dashes[dash_ix];
         is_active = !is_active;
